@@ -914,6 +914,8 @@ where
     {
         assert!(stack.len() >= args);
         let offset = stack.len() - args;
+        #[cfg(feature = "verif")]
+        crate::verif::note_stack(stack.len() as usize, stack.frames.len() + 1);
         let frame = construct_gc!(Frame {
             offset,
             @state: gc::Borrow::new(state),
